@@ -133,6 +133,11 @@ pub const VALID: &[(&str, Option<i64>)] = &[
     ("{ w := (x: mut (int|string)) -> int { x = \"w\"; return 8 }; w(cv) }", Some(8)),
     ("{ l := mut [1, \"a\"][0]; l = \"b\"; if d: mut int = l { 1 } else { 0 } }", Some(0)),
     ("{ pick := (k: bool) -> int|float { if k { return 1 } return 2.5 }; l := mut pick(true); l = 2.5; if d: mut int = l { 1 } else { 0 } }", Some(0)),
+    // a plain `=` whose two sides reach the same cell stores the cell in itself
+    ("{ selfc = 5; selfc = selfc; t := *selfc; if x: mut any = t { if x == selfc { 1 } else { 0 } } else { 0 } }", Some(1)),
+    ("{ selfc = 5; d := selfc; d = selfc; t := *selfc; if x: mut any = t { if x == d { 1 } else { 0 } } else { 0 } }", Some(1)),
+    ("{ selfc = 5; a2 := [selfc]; a2[0] = selfc; t := *a2[0]; if x: mut any = t { if x == selfc { 1 } else { 0 } } else { 0 } }", Some(1)),
+    ("{ st := (p: mut any, q: any) -> int { p = q; return 0 }; selfc = 5; st(selfc, selfc); t := *selfc; if x: mut any = t { if x == selfc { 1 } else { 0 } } else { 0 } }", Some(1)),
     ("ps = struct{x := 5, y := 6}", None),
     ("pt = (2, \"t\")", None),
     ("pu = [\"a\", 2]", None),
@@ -677,7 +682,9 @@ pub fn gen_op(rng: &mut Rng, cfg: &GenCfg, unique: &mut i64) -> Op {
             }
             Kind::Int => {
                 if k < 18 {
-                    OpKind::Set(Val::Int(next_unique()))
+                    // one stored value in five is negative (truncating division, arithmetic shifts)
+                    let v = next_unique();
+                    OpKind::Set(Val::Int(if rng.chance(1, 5) { -v } else { v }))
                 } else if k < 60 {
                     let op = INT_OPS[rng.below(INT_OPS.len())];
                     if rng.chance(cfg.fail_rate, 1000) {
@@ -698,7 +705,7 @@ pub fn gen_op(rng: &mut Rng, cfg: &GenCfg, unique: &mut i64) -> Op {
                                 }
                             }
                             "*" => [1i64, 2, 3, 0, -1, -2][rng.below(6)],
-                            "/" | "%" => [2i64, 3, 5, 7, -2, -3, 1, -1][rng.below(8)],
+                            "/" | "%" => [2i64, 3, 5, 7, -2, -3, 1, -1, 4, 8, -4, 16][rng.below(12)],
                             "**" => rng.below(3) as i64,
                             "<<" | ">>" => [0i64, 1, 2, 3][rng.below(4)],
                             _ => {
